@@ -368,3 +368,5 @@ def check(run, prog):
     from .c03 import rule_tabstops
     # R-9.5 = R-3.3 (declared under its C03 name)
     rule_tabstops(run, prog)
+    from .c09_linesplit import rule_line_split
+    rule_line_split(run, prog, "R-9.7")
